@@ -15,6 +15,7 @@ import (
 	"github.com/pentops/j5/internal/zzverif/simrt"
 	"google.golang.org/protobuf/proto"
 	"google.golang.org/protobuf/reflect/protodesc"
+	"google.golang.org/protobuf/reflect/protoreflect"
 	"google.golang.org/protobuf/types/descriptorpb"
 )
 
@@ -265,15 +266,34 @@ func compileOutputs(ctx context.Context, ps *protobuild.PackageSet, pkg string) 
 		}
 		fo := FileOut{Path: f.Path(), Desc: b}
 		if strings.HasSuffix(f.Path(), ".j5s.proto") {
+			// what `j5 genproto` writes: printing must succeed
 			text, err := protoprint.PrintFile(ctx, f, "")
 			if err != nil {
 				return nil, fmt.Errorf("print %s: %w", f.Path(), err), ""
 			}
 			fo.Text = text
+		} else {
+			// hand-written files are printable too (the property speaks of printed .proto text in
+			// general; custom options are dynamic messages there). A file the printer cannot handle
+			// is recorded as such - that, too, must not vary.
+			fo.Text = printLenient(ctx, f)
 		}
 		outs = append(outs, fo)
 	}
 	return outs, nil, ""
+}
+
+func printLenient(ctx context.Context, f protoreflect.FileDescriptor) (text string) {
+	defer func() {
+		if r := recover(); r != nil {
+			text = "<<printer panicked>>"
+		}
+	}()
+	t, err := protoprint.PrintFile(ctx, f, "")
+	if err != nil {
+		return "<<printer error>>"
+	}
+	return t
 }
 
 func firstDiff(a, b string) string {
